@@ -68,6 +68,8 @@ fn ulp_dn(x: f64) -> f64 { -ulp_up(-x) }
 fn so2_lattice(rng: &mut Lcg) -> Vec<SO2State> {
     let mut a = vec![0.0, PI, -PI, ulp_dn(PI), ulp_up(-PI), PI / 2.0, -PI / 2.0, 3.0 * PI / 4.0, -3.0 * PI / 4.0, 1.0, -1.0, 3.0, -3.0, 0.1, 2.5, -2.01757];
     for _ in 0..8 { a.push(rng.range(-PI, PI)); }
+    // equivalent representations written with extra turns (SO2State's field is public)
+    for v in [9.0, -7.5, 2.0 * PI + 0.5, -4.0 * PI + 1.0, 3.0 * PI] { a.push(v); }
     a.into_iter().map(|v| SO2State { value: v }).collect()
 }
 fn so3_lattice(rng: &mut Lcg) -> Vec<SO3State> {
